@@ -305,10 +305,22 @@ fn do_step_x<const NS: usize, const PARENT: bool>(t: &mut FinalityTracker, g: &G
     vcheck!(t.status.len() == n_status, "status map holds entries it should not");
     vcheck!(t.parents.len() == n_par, "parent map holds entries it should not");
 
-    vcover!(newly_direct, "a slot becomes directly finalized");
-    vcover!(!newly_direct && d2.direct[s] && d.direct[s], "a certificate arrives for a slot that is already finalized");
     std::mem::forget(ev);
     g2
+}
+
+/// Reachability witnesses of a certificate step (the callers know the operation kind).
+fn cover_cert_step<const NS: usize>(g: &Ghost<NS>, g2: &Ghost<NS>, s: usize) {
+    let (d, d2) = (g.derive(), g2.derive());
+    let newly_direct = d2.direct[s] && !d.fin[s];
+    vcover!(newly_direct, "a slot becomes directly finalized");
+    vcover!(!newly_direct && d2.direct[s] && d.direct[s], "a certificate arrives for a slot that is already finalized");
+}
+/// Reachability witnesses of a parent-link step.
+fn cover_parent_step<const NS: usize>(g: &Ghost<NS>, g2: &Ghost<NS>, s: usize, p: usize) {
+    let (d, d2) = (g.derive(), g2.derive());
+    vcover!(d2.fin[p] && !d.fin[p], "the new link finalizes the parent implicitly");
+    vcover!(!d2.fin[s], "a link below an unfinalized block changes nothing");
 }
 
 /// Inductive step: arbitrary history-consistent pre-state over the given link structure, one
@@ -321,7 +333,8 @@ fn step_body<const NS: usize>(op: u8, links: [u8; NS]) {
     vs::assume(g.consistent(&d));
     let mut t = build(&g, &d, &as_implicit);
     vcover!(d.w > 0, "pre-state already pruned");
-    let _ = do_step(&mut t, &g, op, s, 0);
+    let g2 = do_step(&mut t, &g, op, s, 0);
+    cover_cert_step(&g, &g2, s);
     std::mem::forget(t);
 }
 
@@ -333,7 +346,8 @@ fn step_parent_body<const NS: usize>(links: [u8; NS], s: usize, p: usize) {
     vs::assume(g.consistent(&d));
     let mut t = build(&g, &d, &as_implicit);
     vcover!(d.w > 0, "pre-state already pruned");
-    let _ = do_step(&mut t, &g, 0, s, p);
+    let g2 = do_step(&mut t, &g, 0, s, p);
+    cover_parent_step(&g, &g2, s, p);
     std::mem::forget(t);
 }
 
@@ -375,7 +389,9 @@ fn certs_body<const NS: usize, const K: usize>(s: usize) {
     let mut i = 0;
     while i < K {
         let op = 1 + vs::any_below(3);
-        g = do_step_x::<NS, false>(&mut t, &g, op, s, 0);
+        let g2 = do_step_x::<NS, false>(&mut t, &g, op, s, 0);
+        cover_cert_step(&g, &g2, s);
+        g = g2;
         i += 1;
     }
     std::mem::forget(t);
